@@ -89,7 +89,7 @@ def validate_share(ctx, tracefile, leg):
         grown = wl.get("phase") is not None
         if grown:
             # the store grew under one running handler (delete claims arriving after the handler had answered)
-            sig = sig.replace("/share-live/", "/share-grown/", 1)
+            sig = sig.replace("/share-live/", "/share-regrown/" if wl.get("regrown") else "/share-grown/", 1)
         devs = re.findall(r'"(\w+)"', f[7])
         what = ("world %s (%s index): %s chain %s%s -> %s ; the property demands '%s' (share is %s, path is %s)%s" % (
             wl["name"], wl["state"], ev["method"], ev["chain"], " assemble=1" if ev["asm"] else "", ev["cls"], f[5], f[3], f[4],
@@ -101,7 +101,7 @@ def validate_share(ctx, tracefile, leg):
                 j += 1
                 if evs[j]["ev"] == "world":
                     full = evs[j]["items"]
-        replay = {"property": ctx.prop, "kind": "share", "signature": sig, "leg": leg, "states": ["grown" if grown else wl["state"]],
+        replay = {"property": ctx.prop, "kind": "share", "signature": sig, "leg": leg, "states": [("regrown" if wl.get("regrown") else "grown") if grown else wl["state"]],
                   "world": {"name": wl["name"], "items": full},
                   "reqs": [{"w": 1, "chain": ev["chain"], "method": ev["method"], "asm": ev["asm"], "served": ev["gserved"], "gen": ev["gen"]}]}
         found.append((sig, what, replay))
@@ -109,7 +109,7 @@ def validate_share(ctx, tracefile, leg):
     return found, nsec, len(evs) - nsec, evs
 
 
-def share_job(ctx, drv, tag, inp=None, random=None, states="live,reopened,grown"):
+def share_job(ctx, drv, tag, inp=None, random=None, states="live,reopened,grown,regrown"):
     out = ctx.path("share_%s.ndjson" % tag)
     argv = [drv, "-mode", "share", "-secring", SECRING, "-out", out, "-states", states]
     if inp is not None:
